@@ -384,6 +384,19 @@ func (vfs *OrefaFS) Link(oldname, newname string) error {
 	}
 
 	vfs.mu.Lock()
+
+	// The new name may have been created since the index was read.
+	if _, nChildOk = vfs.nodes[nAbsPath]; nChildOk {
+		vfs.mu.Unlock()
+
+		err := vfs.err.FileExists
+		if vfs.OSType() == avfs.OsWindows {
+			err = avfs.ErrWinAlreadyExists
+		}
+
+		return &os.LinkError{Op: op, Old: oldname, New: newname, Err: err}
+	}
+
 	vfs.nodes[nAbsPath] = oChild
 	vfs.mu.Unlock()
 
